@@ -255,6 +255,33 @@ func runC14(c *Ctx) {
 		c.check(ok, "C14.url.pair", u, "UnmarshalText delegates to url.URL.UnmarshalBinary on the same bytes", nil, "reader is the inverse of the writer")
 	}
 
+	// ---- writers of JSON: a MarshalJSON of a codec type must leave the quoting
+	// to encoding/json (hand-made quoting — strconv.Quote, "\"" + s + "\"" —
+	// is not JSON for every text: \U escapes, invalid UTF-8, <, >, &)
+	for _, t := range []struct{ pkg, typ string }{{"timeutil", "Duration"}, {"netutil", "HostPort"}, {"netutil", "Prefix"}, {"netutil/urlutil", "URL"}} {
+		m := c.P.Func(t.pkg, t.typ+".MarshalJSON")
+		if m == nil || len(m.Blocks) == 0 {
+			continue
+		}
+		for _, ret := range core.Returns(m) {
+			ok := false
+			for _, lf := range core.Facts(m).Leaves(ret.Results[0], ret) {
+				v := lf.V
+				if ex, isEx := v.(*ssa.Extract); isEx {
+					v = ex.Tuple
+				}
+				if call, isC := v.(*ssa.Call); isC && core.CalleeName(&call.Call) == "encoding/json.Marshal" {
+					ok = true
+				} else if !core.IsNilConst(lf.V) {
+					ok = false
+					break
+				}
+			}
+			c.check(ok, "C14.json.decoded-before-parse", m, t.typ+".MarshalJSON returns what encoding/json.Marshal produced", ret,
+				"the JSON writer must be the inverse of the JSON reader for every text; only encoding/json's own string encoder is")
+		}
+	}
+
 	// ---- Duration ----
 	c14Duration(c)
 
